@@ -15,7 +15,7 @@ import sympy as sp
 
 from nssvc import harness, prover, sym
 from nssvc.harness import Stub
-from nssvc.sym import S
+from nssvc.sym import S, Unsupported
 
 LEVEL = "other"
 EXPLANATION = ("unit pairing of every dimensional field (validator o serializer = identity in the reals, bare numbers taken in the canonical unit), month logic, band check, union ids and the "
@@ -38,16 +38,28 @@ class Q(Stub):
 
     __nss_symbolic__ = True
 
+    __nss_stands_for__ = ("astropy.units.quantity.Quantity",)
+
     def __init__(self, value, unit=None):
         if isinstance(value, Text):
-            value, unit = value.value, value.unit
+            if unit is not None and value.unit is not None and unit != value.unit:
+                conv = Q(value.value, value.unit).to(unit)  # Quantity("3 deg", rad) converts
+                value, unit = conv.value, unit
+            else:
+                value, unit = value.value, (unit or value.unit)
         elif isinstance(value, Q):
-            value, unit = value.value, (unit or value.unit)
+            if unit is not None and value.unit is not None and unit != value.unit:
+                conv = value.to(unit)  # Quantity(Quantity(x, deg), rad) converts, it does not relabel
+                value, unit = conv.value, unit
+            else:
+                value, unit = value.value, (unit or value.unit)
         self.value, self.unit = value, unit
 
-    def to(self, unit):
+    def to(self, unit, equivalencies=None, **k):
         import astropy.units as u
 
+        if equivalencies or k:
+            raise Unsupported("Quantity.to with equivalencies / extra arguments is outside the stub's contract")
         if self.unit is None:
             raise u.UnitConversionError("dimensionless to %s" % unit)
         f = (1.0 * self.unit).to(unit).value  # astropy's factor (raises UnitConversionError if incompatible)
@@ -61,6 +73,16 @@ class Q(Stub):
             fe = sp.pi / 180
         v = self.value
         return Q(S(sym.lift(v) * fe, "py") if isinstance(v, S) else v * float(f), unit)
+
+
+def _q_to_value(self, unit=None, equivalencies=None, **k):
+    """Quantity.to_value(unit) == Quantity.to(unit).value (astropy's documented equivalence)"""
+    if equivalencies or k:
+        raise Unsupported("Quantity.to_value with equivalencies / extra arguments is outside the stub's contract")
+    return self.value if unit is None else self.to(unit).value
+
+
+Q.to_value = _q_to_value
 
 
 def q_overrides():
@@ -120,7 +142,7 @@ def pairing(ck):
             ck.add_functions(it)
             ok = len(ps) == 1 and ps[0].kind == "return" and isinstance(ps[0].result, S) and sp.simplify(ps[0].result.e - x) == 0
             ck.direct("%s/post.bare_number" % qn, ok if not any(p.kind == "unsupported" for p in ps) else None, "post", "symbolic execution", note=str([(p.kind, p.exc if p.kind != "return" else p.result) for p in ps])[:200],
-                      clause="a bare number is taken to be in the canonical unit and stored unchanged", replay_out=None if ok else native_first(ck))
+                      clause="a bare number is taken to be in the canonical unit and stored unchanged", replay_out=None if ok else field_first(ck))
             if fname in CANON and m.__name__ != "MonoCloud":
                 # a quantity text in the canonical unit is stored with its value; in another compatible unit with astropy's conversion
                 ps = it.explore(lambda: (vf, [m, Text(S(x, "py"), units[CANON[fname]])], {}))
@@ -133,7 +155,7 @@ def pairing(ck):
                 ps = it.explore(lambda: (vf, [m, Text(S(x, "py"), bad_unit)], {}))
                 ok = len(ps) == 1 and ps[0].kind == "raise"
                 ck.direct("%s/post.incompatible_rejected" % qn, ok if not any(p.kind == "unsupported" for p in ps) else None, "post", "symbolic execution", note=str([(p.kind, str(p.exc)[:60]) for p in ps]),
-                          clause="a quantity in an incompatible unit is rejected", replay_out=None if ok else native_first(ck))
+                          clause="a quantity in an incompatible unit is rejected", replay_out=None if ok else field_first(ck))
         if sf is not None:
             if vf is None:
                 ck.direct("%s/schema.pairing" % qn, False, "post", "schema introspection", clause="a field with a unit serializer has a unit validator", witness={"field": fname})
@@ -326,6 +348,55 @@ def native_first(ck):
 _BN = {}
 
 
+INCOMPATIBLE = {"km": ("3 s", "30 MHz", "2 eV", "1 rad", "5 kg"), "rad": ("1 km", "3 s", "10 MHz"), "m2": ("3 m", "2 s", "1 rad"), "MHz": ("10 m", "2.5 cm", "1 eV", "2 s", "1 rad", "0.3 1/cm"),
+                "dB": ("3 m", "2 s")}
+
+
+def field_design(ck):
+    """every dimensional field through the real model class: a bare number is stored unchanged, `x <canonical unit>` is stored as x, a
+    quantity of another physical kind -- also one that is only spectrally equivalent (a wavelength or photon energy for a frequency, a
+    frequency for a length) -- is rejected"""
+    from pydantic import ValidationError
+
+    fails, n = [], 0
+    for m, fname, val, ser in fields_with_units():
+        if fname not in CANON or m.__name__ == "MonoCloud":
+            continue
+        cu = CANON[fname]
+        base = {}
+        if m.__name__ == "Radio":
+            base = {"low_frequency": 30.0, "high_frequency": 3000.0}
+        for x in (0.37, 1.25, 42.0) if cu != "MHz" else (100.0, 250.5):
+            for given, label in ((x, "bare number"), ("%r %s" % (x, cu), "text in the canonical unit")):
+                n += 1
+                try:
+                    got = getattr(m(**{**base, fname: given}), fname)
+                    if abs(got - x) > 1e-12 * abs(x):
+                        fails.append({"obligation": "bounded.fields", "clause": "%s is stored unchanged (canonical unit %s)" % (label, cu), "input": {"model": m.__qualname__, "field": fname, "given": repr(given)}, "observed": {"stored": got}})
+                except Exception as ex:
+                    fails.append({"obligation": "bounded.fields", "clause": "%s is accepted" % label, "input": {"model": m.__qualname__, "field": fname, "given": repr(given)}, "observed": repr(ex)[:160]})
+        for bad in INCOMPATIBLE.get(cu, ()):
+            n += 1
+            try:
+                got = getattr(m(**{**base, fname: bad}), fname)
+                fails.append({"obligation": "bounded.fields.reject", "clause": "a quantity of another physical kind is rejected (no spectral or other equivalence is applied)",
+                              "input": {"model": m.__qualname__, "field": fname, "canonical unit": cu, "given": bad}, "observed": {"accepted and stored as": got}})
+            except (ValidationError, ValueError, TypeError):
+                pass
+            except Exception as ex:
+                # any refusal is a refusal; only note the unusual type
+                ck.notes.append("field %s.%s refused %r with %s" % (m.__qualname__, fname, bad, type(ex).__name__))
+    return {"evaluations": n, "failures": fails}
+
+
+def field_first(ck):
+    out = field_design(ck)
+    if out["failures"]:
+        f = out["failures"][0]
+        return {"violated": True, "input": f["input"], "observed": f["observed"], "clause": f["clause"]}
+    return native_first(ck)
+
+
 def bounded_native(ck):
     if "o" in _BN:
         return _BN["o"]
@@ -445,5 +516,7 @@ def run(ck):
     month_logic(ck)
     band_and_unions(ck)
     toml_calls(ck)
+    ck.bounded_run("every dimensional field on the real model classes: bare numbers, canonical text, other physical kinds", lambda: field_design(ck),
+                   design="15 fields x {bare number, text in the canonical unit} x 2-3 values; 2-6 quantities of another physical kind per field, including spectrally equivalent ones (wavelength / photon energy / wavenumber for a frequency, frequency for a length)")
     ck.bounded_run("TOML round trip, unit spellings, rejections, months on the real classes", lambda: bounded_native(ck),
                    design="24 generated configurations (all spectrum / cloud variants, 12 awkward strings incl. quotes, backslashes, non-ASCII, CR / LF / CRLF), 17 unit spellings, 4 rejections, 8 accepted and 12 rejected months")
